@@ -100,7 +100,8 @@ def inject(rnd, r):
         else:
             want = {"tick count": "range", "no ticks": "range", "unsorted ticks": "range", "label count": "set",
                     "no interval": "sampled", "zero interval": "sampled", "negative interval": "sampled"}.get(what)
-            cand = [d for d in dims if (d[0] == want if want else d[0] != "set")]
+            # only descriptors that describe an axis (an earlier injection may have added a surplus one)
+            cand = [d for j, d in enumerate(dims) if j < len(a["shape"]) and (d[0] == want if want else d[0] != "set")]
             if not cand:
                 return None
             d = rnd.choice(cand)
@@ -117,7 +118,7 @@ def inject(rnd, r):
                 j = rnd.randrange(len(d[1]) - 1)
                 d[1][j + 1] = d[1][j] - rnd.choice([0, 1])
             elif what == "label count":
-                n = a["shape"][dims.index(d)]
+                n = a["shape"][next(j for j, x in enumerate(dims) if x is d)]       # the axis of THIS descriptor (not of an equal one)
                 d[1] = n + rnd.choice([-1, 1, 2]) if n > 1 else n + 1
             elif what == "dimension unit":
                 d[2] = rnd.choice(BAD_DIM_UNITS)
@@ -315,8 +316,15 @@ def run(ctx):
         labels = []
         nin = rnd.choices([0, 1, 2], [0.25, 0.45, 0.30])[0]
         for _ in range(nin):
-            x = inject(rnd, r)
+            # a second injection may not fit what the first one left (no descriptor to drop, no positions to narrow):
+            # it is then skipped as a whole
+            trial = copy.deepcopy(r)
+            try:
+                x = inject(rnd, trial)
+            except (IndexError, TypeError, KeyError, ValueError):
+                x = None
             if x is not None:
+                r = trial
                 labels.append(x)
         cases.append(r)
         injected.append(labels)
@@ -341,11 +349,19 @@ def run(ctx):
         touched = set(tuple(b) for _, b in labels)
         touched_arrays = set(i for g, i in touched if g == "arrays")
         bad = None
+        # two injections can cancel each other (a dropped and an added descriptor; a tag with one unit too few whose
+        # reference then loses a descriptor): "every injection is reported" is only demanded of injections that
+        # cannot interact - different objects, none of them an array referenced by the other. The declarative catalogue
+        # and the model below judge every recipe whatever was injected.
+        objs = [tuple(b) for _, b in labels]
+        interact = len(objs) == 2 and (objs[0] == objs[1] or any(
+            g2 == "arrays" and g1 in ("tags", "mtags") and i2 in r[g1][i1]["refs"]
+            for (g1, i1), (g2, i2) in ((objs[0], objs[1]), (objs[1], objs[0]))))
         for (g, i), errs in zip(flat, per):
             dependent = g in ("tags", "mtags") and any(a in touched_arrays for a in r[g][i]["refs"])
             if errs and (g, i) not in touched and not dependent:
                 bad = ("errors are reported for an object without any inconsistency", {"object": [g, i], "codes": errs})
-            if not errs and (g, i) in touched:
+            if not errs and (g, i) in touched and not interact:
                 bad = ("an injected inconsistency is not reported for its object", {"object": [g, i],
                                                                                     "injected": [a for a, b in labels if tuple(b) == (g, i)]})
             if 999 in errs or 4 in errs:
